@@ -18,11 +18,7 @@ def run(ctx):
     nf = {"quick": 170, "thorough": 3000}[ctx.tier]
     # the two stages of package lib/controller use the same overlay (one test binary) and run one after the other;
     # the federation stage runs next to them, and the Coq evaluation of a stage overlaps with the other harnesses
-    # --replay: the driver regenerates a case with the seed recorded in the replay file, which is the run's seed;
-    # the stages below use seed + offset, so the offset of the replayed stage is added here
-    offsets = {"c18": 0, "c18legacy": 1, "c18fan": 2}
-    if ctx.replay is not None and ctx.replay.get("stage") in offsets:
-        ctx.replay = dict(ctx.replay, seed=int(ctx.replay["seed"]) + offsets[ctx.replay["stage"]])
+    # (--replay: core.Ctx.stage adds the stage's seed offset to the seed recorded in the replay file)
     ctl_files = ["C18/zz_verif_c18legacy_test.go", "C18/zz_verif_c18fan_test.go"]
     ctl_lock = threading.Lock()
     plain_go_test = ctx.go_test
